@@ -112,6 +112,11 @@ def indexByte (b : Bytes) (c : Byte) : Int :=
   | some i => (i : Int)
   | none => -1
 
+/-- `bytes.TrimLeft/TrimRight/Trim(b, cutset)` for an ASCII cutset -/
+def trimLeft (b cut : Bytes) : Bytes := b.dropWhile (cut.contains ·)
+def trimRight (b cut : Bytes) : Bytes := (b.reverse.dropWhile (cut.contains ·)).reverse
+def trimBoth (b cut : Bytes) : Bytes := trimRight (trimLeft b cut) cut
+
 /-- Go's `x << n` / `x >> n` for a shift count that may reach the width (Lean reduces the count modulo the width) -/
 def shl8 (x : UInt8) (n : Nat) : UInt8 := if n < 8 then x <<< UInt8.ofNat n else 0
 def shr8 (x : UInt8) (n : Nat) : UInt8 := if n < 8 then x >>> UInt8.ofNat n else 0
